@@ -50,6 +50,9 @@ pub fn blocks() -> Vec<BlockType> {
         BlockType::File,
         BlockType::MultiPartMessage(1, 2),
         BlockType::MultiPartMessage(12, 345),
+        BlockType::MultiPartMessage(65535, 65536),
+        BlockType::MultiPartMessage(1 << 32, 0),
+        BlockType::MultiPartMessage(usize::MAX, usize::MAX),
         BlockType::PublicKeyPKCS1(PKCS1Type::RSA),
         BlockType::PublicKeyPKCS1(PKCS1Type::DSA),
         BlockType::PublicKeyPKCS1(PKCS1Type::EC),
@@ -616,7 +619,7 @@ pub fn check(ctx: &Ctx) {
     ctx.run_space(
         "roundtrip",
         true,
-        &format!("armor::write -> byte-compare with the model encoder -> Dearmor: every length 0..={maxlen} (+ sparse up to 4096 / large in thorough) x 3 patterns x checksum on/off; all 17 block types x 8 header sets x 8 lengths x checksum"),
+        &format!("armor::write -> byte-compare with the model encoder -> Dearmor: every length 0..={maxlen} (+ sparse up to 4096 / large in thorough) x 3 patterns x checksum on/off; all 20 block types x 8 header sets x 8 lengths x checksum"),
         rt.into_par_iter(),
         run_roundtrip,
     );
